@@ -164,8 +164,10 @@ def build_hx(variant="", extra_flags=()):
             shutil.copy(gosum, os.path.join(HARNESS, "go.sum"))
         os.makedirs(BIN, exist_ok=True)
         target = os.path.join(BIN, "hx" + variant)
+        # -race switches checkptr on, which rejects goom's own pointer arithmetic (not a race): keep it off
+        gcflags = "-gcflags=all=-l -d=checkptr=0" if "-race" in extra_flags else "-gcflags=all=-l"
         cmd = ["go", "build", "-tags", "verif", "-overlay", os.path.join(HARNESS, "overlay.json"),
-               "-gcflags=all=-l", "-o", target] + list(extra_flags) + ["./cmd/hx"]
+               gcflags, "-o", target] + list(extra_flags) + ["./cmd/hx"]
         env = go_env()
         if "-race" in extra_flags or any("linkmode=external" in f for f in extra_flags):
             env["CGO_ENABLED"] = "1"
